@@ -1288,6 +1288,12 @@ func TestVerifC11BFS(t *testing.T) {
 
 	var rc replayCase
 	if r.ReplayCase(&rc) {
+		if rc.Start == "multi-entry" {
+			multiEntrySweep(t, r)
+			r.States(1)
+			r.Transitions(1)
+			return
+		}
 		if rc.Start == "external-list" {
 			externalListSweep(t, r)
 			r.States(1)
@@ -1335,6 +1341,9 @@ func TestVerifC11BFS(t *testing.T) {
 	}
 	if ws == 1%nws {
 		externalListSweep(t, r) // list length x revoked index of a foreign issuer's list, once per run
+	}
+	if ws == 2%nws {
+		multiEntrySweep(t, r) // credentials with 2-3 status entries in every order, once per run
 	}
 	build(t, r, "seeded", []event{{Op: "issueSL", I: 1}, {Op: "issueSL", I: 1}}, func(w *world) {
 		a, b := w.m.Creds[0], w.m.Creds[1]
